@@ -83,6 +83,9 @@ def r20_1(prog, rep):
     c = strip(ret)
     if c.get("k") == "call" and c.get("fn") == "echs_instant_lt_p" and [lv(a) for a in c["a"]] == [e.params[0]["n"] + ".from", e.params[1]["n"] + ".from"]:
         rep.ok(rid, "echs_event_lt_p/by-from", e.loc(), "events are ordered by .from through echs_instant_lt_p, in argument order")
+    elif (lambda wc: wc is not None and wc[0] == "<" and [lv(strip_casts(wc[1])), lv(strip_casts(wc[2]))] == [
+            e.params[0]["n"] + ".from", e.params[1]["n"] + ".from"])(__import__("sa.order", fromlist=["wrapped_compare"]).wrapped_compare(e)):
+        rep.ok(rid, "echs_event_lt_p/by-from", e.loc(), "events are ordered by .from with the instant comparison written out (both copies wrapped, `<` on the packed words)")
     else:
         rep.fail(rid, "echs_event_lt_p/by-from", e.loc(), "echs_event_lt_p is %s, expected echs_instant_lt_p(e1.from, e2.from)" % show(ret))
 
@@ -498,10 +501,13 @@ def r20_7(prog, rep, rid="R20.7"):
 
         def ev(c, r, length):
             def call_eval(q, store):
-                if q.get("fn") == "Range_length" and q.get("a") and lv(strip_casts(cfg.resolve(q["a"][0]))) == r:
-                    return length
+                if q.get("fn") == "Range_length" and q.get("a"):
+                    return length if lv(strip_casts(cfg.resolve(q["a"][0]))) == r else 1      # the other range is not empty
                 return None
             store = {r + ".start": 10, r + ".end": 10 + length}
+            for o_ in ranges:
+                if o_ != r:
+                    store.update({o_ + ".start": 30, o_ + ".end": 31})
             return eval_in(store, c, f, call_eval)
         k = 0
         for b in sorted(blks):
@@ -526,8 +532,8 @@ def r20_7(prog, rep, rid="R20.7"):
                     rep.fail(rid, key, f.loc(line), "the merge loop is left%s although neither %s nor %s is known to be empty: the rest of %s stays in "
                              "front of members of %s that sort before it — the output is a permutation but not in order (needs >= 2048 "
                              "elements with very few distinct values)" % (" on `%s`" % show(c)[:40] if c is not None else "", ranges[0], ranges[1], ranges[0], ranges[1]))
-    if n < 4:
-        rep.broken_("rule=%s expected >=4 loop exits (2 per unit), found %d" % (rid, n))
+    if n < 2:
+        rep.broken_("rule=%s expected >=2 loop exits (at least one per unit), found %d" % (rid, n))
 
 
 def run(prog, rep, tier, snap):
@@ -545,7 +551,7 @@ def run(prog, rep, tier, snap):
     rep.call(r20_6, prog, rep)
     rep.rule("R08.3", "sentinels wrap to zero: all-day sorts before timed (shared with C08)", 4)
     rep.call(c08.r08_3, prog, rep)
-    rep.rule("R20.7", "the rotation merge runs until one of its ranges is empty", 4)
+    rep.rule("R20.7", "the rotation merge runs until one of its ranges is empty", 2)
     rep.call(r20_7, prog, rep)
     from . import c03
     rep.rule("R03.6", "the sort entry points order instants through the comparators only, never by the packed word (shared with C03)", 1)
